@@ -230,7 +230,7 @@ func TestAntispoof(t *testing.T) {
 	rangeSets := [][]string{nil, {"10.0.1.0/24"}, {"0.0.0.0/0"}, {"10.0.1.5/32"}, {"10.0.0.0/9", "172.16.0.0/12"}, {"10.0.1.4/30", "192.168.0.0/17"}}
 	bindKinds := []string{"absent", "v4", "v6", "v4-then-v6", "v6-then-v4", "v4-removed", "v6-removed", "dual-removed", "v4-rebound-other"}
 	scen := 0
-	randomExtra := run.Pick(1, 12)
+	randomExtra := run.Pick(3, 12)
 	for rep := 0; rep < randomExtra; rep++ {
 		for _, def := range modes {
 			for _, bmode := range modes {
